@@ -217,6 +217,7 @@ Fixpoint bpre (s : st) : key :=
   | Tab p u => bpre u ++ p
   | Flu _ u => bpre u
   | Syn u => bpre u
+  | Lzy _ _ u => bpre u
   | _ => []
   end.
 
@@ -225,6 +226,7 @@ Fixpoint prefixes_wf (s : st) : Prop :=
   | Tab p u => wf_bytes p = true /\ prefixes_wf u
   | Flu _ u => prefixes_wf u
   | Syn u => prefixes_wf u
+  | Lzy _ _ u => prefixes_wf u
   | _ => True
   end.
 
@@ -251,18 +253,22 @@ Proof.
       * rewrite E0. apply lex_leb_le. apply lex_le_app.
 Qed.
 
+Definition covers_opt (P : key) (r : option (okey * okey)) : bool :=
+  match r with Some (lo, hi) => compact_covers P lo hi | None => true end.
+
 Theorem st_compact_covers s : forall T lo hi, prefixes_wf s -> wf_bytes T = true ->
   compact_covers T lo hi = true ->
-  compact_covers (bpre s ++ T) (fst (st_compact s lo hi)) (snd (st_compact s lo hi)) = true.
+  covers_opt (bpre s ++ T) (st_compact s lo hi) = true.
 Proof.
-  induction s as [e m|o|o u IH|p u IH|u IH]; intros T lo hi W WT H; cbn [st_compact bpre app]; auto.
+  induction s as [e m|o|o u IH|p u IH|u IH|o i u IH]; intros T lo hi W WT H; cbn [st_compact bpre app covers_opt]; auto.
   - destruct W as [Wp Wu]. rewrite <- app_assoc. apply IH; auto.
     + rewrite wf_bytes_app, Wp, WT. reflexivity.
     + now apply table_compact_covers.
+  - destruct i; auto.
 Qed.
 
 Corollary st_compact_whole s : prefixes_wf s ->
-  compact_covers (bpre s) (fst (st_compact s None None)) (snd (st_compact s None None)) = true.
+  covers_opt (bpre s) (st_compact s None None) = true.
 Proof.
   intros W. rewrite <- (app_nil_r (bpre s)) at 1. apply st_compact_covers; auto.
 Qed.
